@@ -3,7 +3,7 @@
    buffer denotes, canon b the canonical form (minimal byte count, zero padding bits).
    Only statements; proofs are in theories/BufferSpec.v and the Buf*.v files it builds on. *)
 From Coq Require Import ZArith List Bool.
-From MS Require Import PyBase Buffer Bits ByteFacts BufferAbs BufferSpec.
+From MS Require Import PyBase Buffer Bits ByteFacts BufferAbs BufferSpec BufferHeap BufferHeapSpec BufferHeapBits.
 Import ListNotations.
 Open Scope Z_scope.
 
@@ -62,6 +62,20 @@ Example c05_ex :
   b_add a b = Ok (mkbuf [171; 232] 13 RIGHT 3) /\ b_iter b = Ok [1; 0; 1].
 Proof. vm_compute. split; reflexivity. Qed.
 
+(* the same on Buffer OBJECTS (heap model BufferHeap.v): for every heap and references in it, operands may be one object; what the method returns, and what became of the objects that were there *)
+Theorem c05_getitem_objects r s e h b : nth_error h r = Some b -> canon b -> 0 <= s <= e ->
+  exists v, h_getitem r (Some s) (Some e) h = (Ok (length h), h ++ [v]) /\ canon v /\ bside v = bside b /\
+            abs v = firstn (Z.to_nat (e - s)) (skipn (Z.to_nat s) (abs b)).
+Proof. exact (obj_getitem r s e h b). Qed.
+Theorem c05_add_objects l r h lb rb : nth_error h l = Some lb -> nth_error h r = Some rb -> canon lb -> canon rb ->
+  exists x v h', h_add l r h = (Ok x, h') /\ extends h h' /\ nth_error h' x = Some v /\ canon v /\ bside v = bside lb /\
+                 abs v = abs lb ++ abs rb.
+Proof. exact (obj_add l r h lb rb). Qed.
+Theorem c05_setitem_objects r s e v h b vb : nth_error h r = Some b -> nth_error h v = Some vb -> canon b -> canon vb ->
+  0 <= s <= e -> e <= blen b ->
+  exists w h', h_setitem r (Some s) (Some e) v h = (Ok r, h') /\ nth_error h' r = Some w /\ canon w /\ bside w = bside b /\
+               abs w = firstn (Z.to_nat s) (abs b) ++ abs vb ++ skipn (Z.to_nat e) (abs b).
+Proof. exact (obj_setitem r s e v h b vb). Qed.
 Print Assumptions c05_new_left.
 Print Assumptions c05_new_right.
 Print Assumptions c05_iter.
@@ -75,3 +89,6 @@ Print Assumptions c05_setint.
 Print Assumptions c05_pad.
 Print Assumptions c05_copy.
 Print Assumptions c05_abs_inj.
+Print Assumptions c05_getitem_objects.
+Print Assumptions c05_add_objects.
+Print Assumptions c05_setitem_objects.
